@@ -255,6 +255,7 @@ def run_resolve_name(res, mode, backend, env, clock, cfg, st):
     import socket
     real = res.resolve   # bound method of the class
     stage = [0]
+    nlife = st["life"] if st["life"] else cfg["life"]   # lifetime of the whole address lookup, in ticks
 
     def begin_event(qname, rdtype, kw):
         stage[0] += 1
@@ -267,7 +268,7 @@ def run_resolve_name(res, mode, backend, env, clock, cfg, st):
                        "search": "none" if srch is None else ("true" if srch else "false"), "life": ticks if exact else -1,
                        "qtype": dns.rdatatype.to_text(dns.rdatatype.RdataType.make(rdtype)),
                        "qclass": dns.rdataclass.to_text(dns.rdataclass.RdataClass.make(kw.get("rdclass", IN))),
-                       "rna": bool(kw.get("raise_on_no_answer", True)), "now": clock.now()})
+                       "rna": bool(kw.get("raise_on_no_answer", True)), "nlife": nlife, "now": clock.now()})
 
     def sync_wrapper(qname, rdtype=dns.rdatatype.A, *args, **kw):
         begin_event(qname, rdtype, kw)
@@ -328,13 +329,17 @@ def run_script(script, mode, tid):
             res = dns.resolver.Resolver(configure=False)
         else:
             res = dns.asyncresolver.Resolver(configure=False)
-        glue = cfg.get("glue", "scripted") == "do53"
-        if glue:
-            # REAL Do53Nameserver objects; the transports they call are stubbed (see Transports)
-            res.nameservers = [dns.nameserver.Do53Nameserver("192.0.2.%d" % (i + 1), 53) for i in range(cfg["ns"])]
+        glue = cfg.get("glue", "scripted")
+        if glue != "scripted":
+            # REAL Do53Nameserver objects; the transports they call are stubbed (see Transports).
+            # "do53": one address per server; "do53port": one address, the servers differ in the port only
+            if glue == "do53port":
+                res.nameservers = [dns.nameserver.Do53Nameserver("192.0.2.1", 5300 + i + 1) for i in range(cfg["ns"])]
+            else:
+                res.nameservers = [dns.nameserver.Do53Nameserver("192.0.2.%d" % (i + 1), 53) for i in range(cfg["ns"])]
 
             def handler(transport, is_async, q, where, kw):
-                idx = int(str(where).rsplit(".", 1)[1])
+                idx = kw.get("port", 0) - 5300 if glue == "do53port" else int(str(where).rsplit(".", 1)[1])
                 try:
                     return env.serve(idx, q, kw.get("timeout"), transport == "tcp")
                 except dns.message.Truncated:  # the scripted reply has TC set
